@@ -20,7 +20,7 @@ MOD = "vf.checks.c05"
 RULE = (
     "Grid: n_iter 1..12 x (burn-in fraction in {0,.1,.29,.5,.7,.9,1} or explicit count 0..n_iter+1) x power in {0.51,0.8,1.0} x model kind "
     "(logistic, linear; thorough: + shared-speed, joint, mixture) on a fixed small cohort, every iteration of every run judged; refused powers "
-    "{0.5,0.3,1.0001,0,-1,2}; Hypothesis: n_iter 1..60, fraction in [0,1] or count, power in (0.5,1], generated cohort and model kind. "
+    "{0.5,0.3,1.0001,0,-1,2,nan,+inf,-inf}; annealing blocks shorter and longer than the memory-less phase; Hypothesis: n_iter 1..60, fraction in [0,1] or count, power in (0.5,1], generated cohort and model kind. "
     "Non-trivial = a run that contains all three regimes (k <= n_burn_in, k = n_burn_in+1, k >= n_burn_in+2); distinct by configuration."
 )
 ASSUMPTIONS = [
@@ -28,11 +28,12 @@ ASSUMPTIONS = [
     "Memory-less phase (k <= n_burn_in + 1): S_k must equal s_k bit-exactly. Afterwards S_k must equal (1-e_k) S_(k-1) + e_k s_k both bit-exactly with the same float32 ops and against float64 within 8 ulp of the summed magnitudes.",
     "LeaspyConvergenceError during a generated fit (collapsed variance) ends the case as a rejected input.",
 ]
-REQUIRED_CLASSES = {"all-three-regimes": 100, "refused-power": 12, "nb=0": 10, "nb>=n_iter": 10, "explicit-count": 50, "explicit-count+default-fraction": 30, "second-run-of-same-algorithm-object": 30}
+REQUIRED_CLASSES = {"all-three-regimes": 100, "refused-power": 12, "nb=0": 10, "nb>=n_iter": 10, "explicit-count": 50, "explicit-count+default-fraction": 30, "second-run-of-same-algorithm-object": 30,
+                    "annealing-longer-than-memoryless-phase": 30}
 
 GRID_FRACS = [0.0, 0.1, 0.29, 0.5, 0.7, 0.9, 1.0]
 GRID_POWERS = [0.51, 0.8, 1.0]
-BAD_POWERS = [0.5, 0.3, 1.0001, 0.0, -1.0, 2.0]
+BAD_POWERS = [0.5, 0.3, 1.0001, 0.0, -1.0, 2.0, "nan", "inf", "-inf"]  # strings: non-finite floats kept JSON-clean in replays
 
 
 def fixed_cohort(kind="logistic", nf=2, event=False):
@@ -74,11 +75,14 @@ def run_config(col: Collector, cfg, cohort, algo_kw, sub_check, classes):
 
     inp = dict(cfg=cfg, cohort=cohort, algo=algo_kw)
     n_iter = algo_kw["n_iter"]
+    if isinstance(algo_kw.get("burn_in_step_power"), str):
+        algo_kw = dict(algo_kw, burn_in_step_power=float(algo_kw["burn_in_step_power"]))
     power = algo_kw.get("burn_in_step_power", 0.8)
     if algo_kw.get("n_burn_in_iter") is not None:
         nb = algo_kw["n_burn_in_iter"]
     else:
         nb = int(algo_kw.get("n_burn_in_iter_frac", 0.9) * n_iter)
+    # an annealing block (any length, shorter or longer than the memory-less phase) does not enter the statement: nb is unchanged
     rec = []
     box = {}
 
@@ -212,6 +216,11 @@ def judge_cfg(col, cfg, cohort, algo_kw, sub_check, extra_classes=()):
             classes.append("explicit-count+default-fraction")
     else:
         nb = int(algo_kw.get("n_burn_in_iter_frac", 0.9) * n_iter)
+    ann = algo_kw.get("annealing")
+    if ann:
+        classes.append("annealing")
+        if int(ann["n_iter_frac"] * n_iter) > nb:
+            classes.append("annealing-longer-than-memoryless-phase")
     if nb == 0:
         classes.append("nb=0")
     if nb >= n_iter:
@@ -237,6 +246,12 @@ def grid_configs():
                 out.append(dict(n_iter=n_iter, n_burn_in_iter=cnt, n_burn_in_iter_frac=None, burn_in_step_power=power))
             for cnt in (0, n_iter // 2, n_iter):  # count given, fraction left at its default: the count has priority
                 out.append(dict(n_iter=n_iter, n_burn_in_iter=cnt, burn_in_step_power=power))
+            if n_iter >= 4:  # annealing shorter / longer than the memory-less phase: the phase length is the configured one
+                for fr, fa, P in ((0.5, 0.25, 2), (0.5, 0.8, 2), (0.25, 1.0, 3), (0.0, 0.5, 2)):
+                    out.append(dict(n_iter=n_iter, n_burn_in_iter_frac=fr, burn_in_step_power=power,
+                                    annealing=dict(do_annealing=True, n_iter_frac=fa, n_plateau=P, initial_temperature=5.0)))
+                out.append(dict(n_iter=n_iter, n_burn_in_iter=n_iter // 3, n_burn_in_iter_frac=None, burn_in_step_power=power,
+                                annealing=dict(do_annealing=True, n_iter_frac=0.9, n_plateau=2, initial_temperature=2.0)))
             if n_iter >= 4:  # the same algorithm object run twice: the schedule restarts with every run
                 out.append(dict(n_iter=n_iter, n_burn_in_iter_frac=0.5, burn_in_step_power=power, second_run=True))
     return out
@@ -287,7 +302,11 @@ def gen_case(draw, kinds):
     akw["burn_in_step_power"] = pw
     if draw(st.booleans()):
         akw["sampler_pop"] = draw(st.sampled_from(["Gibbs", "FastGibbs", "Metropolis-Hastings"]))
-    if draw(st.sampled_from([False, False, True])) and 0.5 < pw <= 1:
+    if n_iter >= 2 and draw(st.sampled_from([False, False, True])):
+        fa = draw(st.sampled_from([0.25, 0.5, 0.8, 1.0]))
+        P = min(draw(st.integers(1, 4)), int(fa * n_iter) + 1)  # valid scheme: at least n_plateau - 1 annealing iterations
+        akw["annealing"] = dict(do_annealing=True, n_iter_frac=fa, n_plateau=max(1, P), initial_temperature=draw(st.sampled_from([2.0, 10.0])))
+    if draw(st.sampled_from([False, False, True])) and not isinstance(pw, str) and 0.5 < pw <= 1:
         akw["second_run"] = True
     return dict(cfg=cfg, cohort=cohort, algo=akw)
 
